@@ -15,6 +15,7 @@ def default_params(tier):
     p = progmod.default_params(tier, forbid=["provide", "inject_default"])
     p["budget_mult"] = 5000
     p["loop_ladder"] = 8
+    p["reentrant"] = 10   # re-entrant fill family (prog.generate_reentrant)
     p["py_entry"] = 6
     p["max_prefix"] = 3
     return p
